@@ -106,7 +106,7 @@ theorem C13_returns (hwf : WF inputs prods)
     (h : Reachable F (Piter.init cap bm mw ns soe inputs prods) c)
     {t0 : PThread} (h0 : c.ths[0]? = some t0) {r : List Nat} (hout : t0.iterOutcome = some (.stop r))
     (he : t0.early = false) :
-    c.sh.returned = r ∧ r.Perm (prods.map (·.ret)) :=
+    c.sh.returned = r ∧ r.Perm (prods.flatMap (fun p => p.ret :: p.more)) :=
   let f := end_facts h (C13_covered_of_wf hwf) h0 hout he
   ⟨f.2.2.2.1, f.2.2.2.2.1⟩
 
